@@ -49,7 +49,9 @@ def build_ops(R):
                 meta.append(("setup", "failing-call", 0, 0)); continue
             if r >= 0.22 and r < 0.32:
                 m, tag, ph, st = R.rng.choice(pool)
-                ops.append("RA %d %s %s" % (R.rng.randrange(2), hx(ph), hx(st))); meta.append((m, tag, len(ph or b""), len(st or b""))); continue
+                # half of the crypt_ra calls pass phrase and setting from the handle's own `input` / `setting` members (" I"), the way crypt.h lets an
+                # application keep them; the answer is the same function of the request (seeded/C07f: crypt_ra wiping the block before reading them)
+                ops.append("RA %d %s %s%s" % (R.rng.randrange(2), hx(ph), hx(st), R.rng.choice(["", " I"]))); meta.append((m, tag, len(ph or b""), len(st or b""))); continue
             if r < 0.05:
                 ops.append("O %d %s %d %d" % (R.rng.randrange(nobj), R.rng.choice("zfrp"), R.rng.randrange(16), R.rng.randrange(1 << 30)))
                 meta.append(("setup", "refill", 0, 0)); continue
@@ -134,7 +136,7 @@ def run(R):
     R.cov["so_history_ops"] = len(ops2)
     cm = [(o, m, l) for o, m, l in zip(ops, meta, il) if o.startswith(("C ", "RA "))]
     R.cov["evaluations"] = len(cm)
-    R.cov["distinct_nontrivial"] = len({tuple(o.split(" ")[-2:]) if o.startswith("RA ") else (o.split(" ")[3], o.split(" ")[4]) for o, _, _ in cm})
+    R.cov["distinct_nontrivial"] = len({tuple(o.split(" ")[2:4]) if o.startswith("RA ") else (o.split(" ")[3], o.split(" ")[4]) for o, _, _ in cm})
     R.cov["histories"] = sum(1 for o, m in zip(ops, meta) if m[1] == "obj")
     R.cov["rule"] = ("random histories of 5..60 calls over 1..3 shared objects (pre-filled zero / 0xff / pattern / random, all 16 alignments, refilled mid-history), "
                      "mixing crypt_r, crypt_rn, crypt_ra, static crypt, crypt_gensalt, setkey/encrypt and failing requests, with errno on entry either never cleared "
